@@ -1,0 +1,82 @@
+//go:build verif
+
+package dsl
+
+// Contracts checked by /verif/goavc (comment-only file, built only with -tags verif).
+
+// ---- DSL functions never crash, whatever the expression being built looks like (C12) ------------------------
+// "Any sequence of DSL calls - including misplaced, repeated, ill-typed ones - ... never panics": the validation
+// functions are free of implicit panics for every current expression, in particular an attribute whose type is
+// not known yet (Attribute("name", func() { Minimum(1) })) or that has no validation yet.
+// The evaluation context exists (eval.Reset, run by package eval's init) and the expressions on the execution
+// stack are not typed nil pointers (ASSUMED of eval.Execute's callers: every DSL function that opens a child
+// DSL passes the expression it has just allocated).
+//@ block dslCall
+//@   requires context.exists: eval.Context != nil
+//@   requires no.typed.nil.on.stack: forall i int :: 0 <= i && i < len(eval.Context.Stack) ==> eval.Context.Stack[i] == nil || eval.Context.Stack[i].val != nil
+//@ func Minimum
+//@   params val
+//@   property C12
+//@   opt safety full
+//@   opt safety-inlined on
+//@   use dslCall
+//@ func Maximum
+//@   params val
+//@   property C12
+//@   opt safety full
+//@   opt safety-inlined on
+//@   use dslCall
+//@ func ExclusiveMinimum
+//@   params val
+//@   property C12
+//@   opt safety full
+//@   opt safety-inlined on
+//@   use dslCall
+//@ func ExclusiveMaximum
+//@   params val
+//@   property C12
+//@   opt safety full
+//@   opt safety-inlined on
+//@   use dslCall
+//@ func MinLength
+//@   params val
+//@   property C12
+//@   opt safety full
+//@   opt safety-inlined on
+//@   use dslCall
+//@ func MaxLength
+//@   params val
+//@   property C12
+//@   opt safety full
+//@   opt safety-inlined on
+//@   use dslCall
+//@ func Pattern
+//@   params p
+//@   property C12
+//@   opt safety full
+//@   opt safety-inlined on
+//@   use dslCall
+//@ func Format
+//@   params f
+//@   property C12
+//@   opt safety full
+//@   opt safety-inlined on
+//@   use dslCall
+//@ func Title
+//@   params val
+//@   property C12
+//@   opt safety full
+//@   opt safety-inlined on
+//@   use dslCall
+//@ func Version
+//@   params ver
+//@   property C12
+//@   opt safety full
+//@   opt safety-inlined on
+//@   use dslCall
+//@ func Description
+//@   params d
+//@   property C12
+//@   opt safety full
+//@   opt safety-inlined on
+//@   use dslCall
